@@ -1148,6 +1148,10 @@ class RunBundler:
                 self._local_descriptors[collect_obj] = local_descriptors
 
             local_descriptors = self._local_descriptors[collect_obj]
+            # What a flyer hands over is new data at every collect, none of it is re-taken after a rewind:
+            # the numbering of these streams must go on (pre-declared streams included).
+            for bundle in local_descriptors.values():
+                self._unreplayed_streams.add(bundle.descriptor_doc["name"])
 
             if isinstance(collect_obj, EventPageCollectable):
                 payload = await self._collect_event_pages(
